@@ -301,6 +301,8 @@ func main() {
 	if v := os.Getenv("HX_C18_PROBE"); v != "" {
 		if v == "values" {
 			valuesChild()
+		} else if v == "env" {
+			envChild()
 		} else {
 			probeChild()
 		}
@@ -334,6 +336,10 @@ func main() {
 			probeValues(r)
 		case "backlog":
 			runBacklog(r, c, tmo)
+		case "errvals":
+			runErrVals(r, c, tmo)
+		case "probe-env":
+			probeEnv(r, c.Env)
 		case "reuse", "nest", "sizes":
 			for i := 0; i < 10 && !r.Failed(); i++ { // free-running for several workers: repeat until it shows
 				r.Case()
@@ -359,6 +365,11 @@ func main() {
 	probe(r)
 	if panicOK {
 		probeValues(r) // awkward panic values and error values, in a child process of their own
+	}
+	// every tier: error values by class, one object per value (legs4.go); the panic probe under runtime environment variables
+	errValsLeg(r, tmo)
+	if panicOK && !r.Failed() {
+		probeEnv(r, nil)
 	}
 	// every tier: one task object submitted again and again, tasks submitting tasks, constructors and sizes (diversity.go)
 	reuseLeg(r, tmo)
